@@ -1,6 +1,6 @@
 (* C02 — a response reaches exactly the request it answers; every request completes once.
    Only statements here; every proof is [exact <lemma of Proofs/C02.v>]. *)
-From Verif Require Import Lib.Py Lib.Tactics Gen.tokenmanager_next_token Model.C02 Proofs.C02 Proofs.C02Once Proofs.C02Origin Proofs.C02Inv Proofs.C02Tok Proofs.C02More Proofs.C02Safe.
+From Verif Require Import Lib.Py Lib.Tactics Gen.tokenmanager_next_token Model.C02 Proofs.C02 Proofs.C02Once Proofs.C02Origin Proofs.C02Inv Proofs.C02Tok Proofs.C02More Proofs.C02Safe Proofs.C02R6 Proofs.C02R6b.
 Open Scope Z_scope.
 
 (* ---- tokens (over next_token as translated from tokenmanager.py on this run) *)
@@ -188,9 +188,30 @@ Theorem C02_no_second_completion : forall t m a es x, Forall ev_client es ->
   In x (concat (snd (run (init t m a) es))) -> nocrash x.
 Proof. exact no_crash_lemma. Qed.
 Print Assumptions C02_no_second_completion.
-(* (that no exception ESCAPES the library -- outputs Raised / LoopExc, i.e. the KeyError / AssertionError branches of
-   _retransmit / _continue_backlog -- needs the message-layer invariant "every exchange's remote has a backlog entry and at most
-   one exchange"; it is NOT proved here: checked on every script by the correspondence run and the oracle rule exception-escaped) *)
+(* ---- round 6: ... and no exception ever ESCAPES the library into the transport or the event loop (the model's Raised / LoopExc
+   outputs: KeyError / AssertionError branches of _retransmit / _continue_backlog), by the message-layer invariant MLInv: every
+   exchange's remote has a backlog entry and there is at most one exchange per remote, in every reachable state *)
+Theorem C02_reachable_mlinv : forall t m a es, Forall ev_client es -> MLInv (fst (run (init t m a) es)).
+Proof. exact reachable_mlinv. Qed.
+Print Assumptions C02_reachable_mlinv.
+Theorem C02_no_crash_no_escape : forall t m a es x, Forall ev_client es ->
+  In x (concat (snd (run (init t m a) es))) -> clean x.
+Proof. exact no_crash_no_escape_lemma. Qed.
+Print Assumptions C02_no_crash_no_escape.
+(* with MLInv the side conditions of C02_fire_giveup_fails (the fired exchange is the one looked up; its remote has a backlog entry)
+   and of C02_matching_delivered_piggybacked (_remove_exchange does not raise) are consequences of reachability *)
+Theorem C02_fire_giveup_fails_reachable : forall s ex r mid e og tok q c, Inv s -> MLInv s -> exchanges s = Some ex ->
+  next_timer ex None = Some ((r, mid), e) -> (ex_counter e <? 4) = false ->
+  outgoing s = Some og -> In ((tok, Some r), q) og -> get_req s q = Some c -> cq_fut c = FPending ->
+  In (SetException q ConRetransmitsExceeded) (snd (step s Fire)).
+Proof. exact fire_giveup_fails_ml. Qed.
+Print Assumptions C02_fire_giveup_fails_reachable.
+Theorem C02_matching_delivered_piggybacked_reachable : forall s r mcl w og q c, Inv s -> MLInv s -> outgoing s = Some og -> refuses s r = false ->
+  is_response (w_code w) = true -> w_mtype w = ACK ->
+  matching og (w_token w) r = Some q -> get_req s q = Some c -> cq_fut c = FPending ->
+  In (SetResult q (w_rid w) (w_token w) r) (snd (dispatch_message s r mcl w)).
+Proof. exact matching_delivered_ack_ml. Qed.
+Print Assumptions C02_matching_delivered_piggybacked_reachable.
 
 (* ---- datagram loss: the timer step itself (not only the helper of C02_giveup_fails) fails every pending request of the remote
    whose exchange has used up its retransmissions *)
@@ -243,6 +264,13 @@ Theorem C02_run_delivery : forall s e s' o x q rid tok from, Inv s -> event_wf e
     get_req s q = Some c /\ live c /\ (cq_remote c = from \/ is_multicast (cq_remote c) = true).
 Proof. exact run_delivery_lemma. Qed.
 Print Assumptions C02_run_delivery.
+
+(* ---- round 6: in EVERY state, a datagram never produces a notification for an observation whose `cancelled` flag is set
+   (by the application or by an earlier error); the flag is never reset *)
+Theorem C02_cancelled_obs_silent : forall s r mcl w q c o, get_req s q = Some c -> cq_obs_cancelled c = true ->
+  In o (snd (dispatch_message s r mcl w)) -> forall rid tok from, o <> Notify q rid tok from.
+Proof. exact cancelled_obs_silent_lemma. Qed.
+Print Assumptions C02_cancelled_obs_silent.
 
 (* ---- non-vacuity: the invariant and the hypotheses above are satisfied by concrete busy states *)
 Example C02_nonvacuous_state :
